@@ -447,6 +447,12 @@ def zeroish(t, depth=0):
         return zeroish(t.l, depth + 1) or zeroish(t.r, depth + 1)
     if t.op in ("star", "dstar"):
         return zeroish(t.x, depth + 1)
+    if t.op == "call" and t.fn.op == "ref" and not t.kw:
+        q = t.fn.ref.qual
+        if q in ("builtins.list", "builtins.tuple") and len(t.args) == 1:
+            return zeroish(t.args[0], depth + 1)
+        if q == "builtins.map" and len(t.args) >= 2 and t.args[0].op == "ref" and t.args[0].ref.qual.rsplit(".", 1)[-1] in ("zeros_like",):
+            return True  # map(zeros_like, S): zero element by element
     if t.op == "comp":
         # [zeros_like(e) for e in ends] / {k: zeros_like(v) for ..}: zero element by element
         e = t.elt
